@@ -219,6 +219,18 @@ func c18Mount(p *Prog, c *Check) {
 							if ParsePat("ConfigMiddleware(GetEnableWriteOperations(_))").Match(fi.T(unbox(e)), Binds{}) {
 								use = ci
 							}
+							// ConfigMiddleware written out: the same constructor handed the generated spec loader
+							if mc, isCall := unbox(e).(*ssa.Call); isCall && nameMatches(callName(mc), "kproapi.ConfigMiddlewareWithSpec") && len(mc.Common().Args) == 2 {
+								spec := mc.Common().Args[1]
+								if ct, isCT := spec.(*ssa.ChangeType); isCT {
+									spec = ct.X
+								}
+								sf, isFn := spec.(*ssa.Function)
+								if isFn && fnName(sf) == "GetSwagger" && relPkg(fnPkgPath(sf)) == "keyper/kproapi" && isGeneratedFile(p.fileOf(sf)) &&
+									ParsePat("GetEnableWriteOperations(_)").Match(fi.T(mc.Common().Args[0]), Binds{}) {
+									use = ci
+								}
+							}
 						}
 					}
 				}
